@@ -377,7 +377,7 @@ func WriteZipArchive(st storage.Storer, w io.Writer, tree *object.Tree, commitHa
 			fh.SetMode(fs.FileMode(ApplyUmask(unixMode, true)))
 		case filemode.Symlink:
 			// Zip stores symlinks with mode 0o120000 + permissions.
-			fh.SetMode(fs.FileMode(0o120000 | (ApplyUmask(unixMode, true) & 0o777)))
+			fh.SetMode(fs.ModeSymlink | 0o777)
 		default:
 			fh.SetMode(fs.FileMode(ApplyUmask(unixMode, false)))
 		}
